@@ -3208,6 +3208,10 @@ spmatrix_subscr(spmatrix* self, PyObject* args)
 #if PY_MAJOR_VERSION >= 3
   if (PyLong_Check(args)) {
     i = PyLong_AS_LONG(args);
+    if (i == -1 && PyErr_Occurred()) {
+      PyErr_Clear();
+      PY_ERR(PyExc_IndexError, "index out of range");
+    }
 #else
   if (PyInt_Check(args)) {
     i = PyInt_AS_LONG(args);
@@ -3259,6 +3263,10 @@ spmatrix_subscr(spmatrix* self, PyObject* args)
 #if PY_MAJOR_VERSION >= 3
   if (PyLong_Check(argI) && PyLong_Check(argJ)) {
     i = PyLong_AS_LONG(argI); j = PyLong_AS_LONG(argJ);
+    if ((i == -1 || j == -1) && PyErr_Occurred()) {
+      PyErr_Clear();
+      PY_ERR(PyExc_IndexError, "index out of range");
+    }
 #else
   if (PyInt_Check(argI) && PyInt_Check(argJ)) {
     i = PyInt_AS_LONG(argI); j = PyInt_AS_LONG(argJ);
@@ -3592,6 +3600,10 @@ spmatrix_ass_subscr(spmatrix* self, PyObject* args, PyObject* value)
 
 #if PY_MAJOR_VERSION >= 3
     i = PyLong_AsLong(args);
+    if (i == -1 && PyErr_Occurred()) {
+      PyErr_Clear();
+      PY_ERR_INT(PyExc_IndexError, "index out of range");
+    }
 #else
     i = PyInt_AsLong(args);
 #endif
@@ -3851,6 +3863,10 @@ spmatrix_ass_subscr(spmatrix* self, PyObject* args, PyObject* value)
 
 #if PY_MAJOR_VERSION >= 3
     i = PyLong_AS_LONG(argI); j = PyLong_AS_LONG(argJ);
+    if ((i == -1 || j == -1) && PyErr_Occurred()) {
+      PyErr_Clear();
+      PY_ERR_INT(PyExc_IndexError, "index out of range");
+    }
 #else
     i = PyInt_AS_LONG(argI); j = PyInt_AS_LONG(argJ);
 #endif
